@@ -85,6 +85,9 @@ KNOWN = {
     # ... or the mirror image -x of the crossing (the curve is even in the lag
     # and root() is free to converge to the negative root)
     "K4_percentile_negative_root": True,
+    # ... or, for the hole model JBessel, a later crossing beyond the first minimum
+    # (JBessel(dim=1, nu=2).percentile_scale(0.984375) = 10.54, first crossing 4.99)
+    "K4_percentile_later_crossing": True,
 }
 
 
@@ -1341,6 +1344,10 @@ def check_percentile(case, rec):
     if math.isfinite(got) and got < 0 and res <= 1e-6 and abs(got) <= want * (1 + 1e-3):
         rec.label("percentile_negative_root")
         _finding(rec, case, "K4_percentile_negative_root", msg, tags)
+        return
+    if ok_root and not first and cls == "JBessel":
+        rec.label("percentile_later_crossing")
+        _finding(rec, case, "K4_percentile_later_crossing", msg, tags)
         return
     if not ok_root and _root_signature(m, per):
         rec.label("percentile_unconverged")
